@@ -212,6 +212,9 @@ func openEnv(noReturning bool) *env {
 	_, err = sqlDB.Exec(`CREATE TABLE accts (id integer PRIMARY KEY, name text, age integer, email text,
 		created_at datetime, updated_at datetime, deleted_at datetime)`)
 	lib.Must(err)
+	// a SECOND unique index: e-mails starting with "u" are unique (ordinary e-mails never start with u)
+	_, err = sqlDB.Exec(`CREATE UNIQUE INDEX accts_uemail ON accts(email) WHERE email LIKE 'u%'`)
+	lib.Must(err)
 	return &env{db, rec, sqlDB}
 }
 
@@ -328,7 +331,7 @@ func run(e *env, in Input) Obs {
 		if len(sl) > 0 {
 			dest = sl[len(sl)-1]
 		}
-	case "create_oc":
+	case "create_oc", "create_u":
 		dest = toAcct(*in.Fin.Val)
 		oc := clause.OnConflict{}
 		if in.Fin.Target {
@@ -453,7 +456,7 @@ func gFin(f Fin) string {
 		return lib.App("FSaveSlice", lib.ListOf(f.Vals, gRec))
 	case "save_omit":
 		return lib.App("FSaveOmit", lib.ListOf(f.Omits, func(c string) string { return gColName[c] }), gRec(*f.Val))
-	case "create_oc":
+	case "create_oc", "create_u":
 		rule := "RNothing"
 		switch f.Rule {
 		case "updates":
@@ -466,6 +469,9 @@ func gFin(f Fin) string {
 		}
 		if f.OCWhere != nil {
 			rule = lib.App("RWhere", lib.Z(*f.OCWhere), rule)
+		}
+		if f.Kind == "create_u" {
+			return lib.App("FCreateU", rule, lib.Bool(f.Target), gRec(*f.Val))
 		}
 		return lib.App("FCreateOC", rule, gRec(*f.Val))
 	case "foi":
@@ -874,6 +880,57 @@ func genStep(r *lib.Rng, state []Rec, now int64, edge, known bool) Input {
 	return in
 }
 
+// genUnique draws a stand-alone case on a table whose rows carry UNIQUE e-mails (u1@e, u2@e): an incoming
+// row whose key is fresh / assigned / stored and whose e-mail is free, its own, or held by ANOTHER row,
+// under every OnConflict rule with and without an explicit conflict target.
+func genUnique(r *lib.Rng, now int64) Input {
+	d := int64(7)
+	tbl := []Rec{{ID: 1, Name: "a", Age: 1, Email: "u1@e", Cat: 2, Uat: 3}, {ID: 2, Name: "b", Age: 2, Email: "u2@e", Cat: 2, Uat: 3},
+		{ID: 3, Name: "c", Age: 3, Email: "x@e", Cat: 2, Uat: 3}}
+	if r.Chance(1, 3) {
+		tbl[1].Del = &d // the holder of u2@e is soft-deleted: still a collision
+	}
+	v := Rec{ID: lib.Pick(r, []int64{0, 0, 9, 1, 2, 3}), Name: lib.Pick(r, names), Age: int64(r.Intn(4)),
+		Email: lib.Pick(r, []string{"u1@e", "u2@e", "u2@e", "u3@e", "x@e"})}
+	f := Fin{Kind: "create_u", Val: &v, Target: true}
+	switch r.Intn(3) {
+	case 0:
+		f.Rule = "nothing"
+		f.Target = r.Chance(2, 3)
+	case 1:
+		f.Rule = "updates"
+		for _, c := range []string{"name", "age", "email"} {
+			if r.Bool() {
+				f.Cols = append(f.Cols, c)
+			}
+		}
+		if len(f.Cols) == 0 {
+			f.Cols = []string{"email"}
+		}
+	default:
+		f.Rule = "all"
+		f.Target = r.Bool()
+	}
+	if f.Rule != "nothing" && r.Chance(1, 4) {
+		k := int64(1 + r.Intn(3))
+		f.OCWhere = &k
+	}
+	if r.Chance(1, 4) {
+		// the collision is on the OTHER index only: a fresh or assigned key, an e-mail another row holds
+		v.ID, v.Email = lib.Pick(r, []int64{0, 9}), lib.Pick(r, []string{"u1@e", "u2@e"})
+	}
+	// DO NOTHING on the key while ANOTHER row holds the e-mail, with the key stored too: which of the two
+	// collisions SQLite reports first is not part of the rule; not generated
+	if f.Rule == "nothing" && v.ID != 0 && v.ID != 9 {
+		for _, row := range tbl {
+			if row.ID != v.ID && row.Email == v.Email && strings.HasPrefix(v.Email, "u") {
+				v.Email = "u3@e"
+			}
+		}
+	}
+	return Input{Tbl: tbl, Now: now, NoReturn: r.Chance(1, 4), Fin: f}
+}
+
 func findRow(t []Rec, id int64) *Rec {
 	for i := range t {
 		if t[i].ID == id {
@@ -909,8 +966,8 @@ func shape(in Input, o Obs) string {
 	if in.Fin.Kind == "save_omit" {
 		sb.WriteString(":" + strings.Join(in.Fin.Omits, ",") + in.Fin.OmitSpell)
 	}
-	if in.Fin.Kind == "create_oc" {
-		sb.WriteString(":" + in.Fin.Rule)
+	if in.Fin.Kind == "create_oc" || in.Fin.Kind == "create_u" {
+		sb.WriteString(":" + in.Fin.Rule + fmt.Sprint(in.Fin.Target) + in.Fin.Val.Email)
 		if in.Fin.OCWhere != nil {
 			fmt.Fprintf(&sb, "+where%d", *in.Fin.OCWhere)
 		}
@@ -960,6 +1017,8 @@ func shape(in Input, o Obs) string {
 
 func nontrivial(in Input, o Obs) bool {
 	switch in.Fin.Kind {
+	case "create_u":
+		return true
 	case "save", "create_oc", "save_omit":
 		return in.Fin.Val.ID != 0 && findRow(in.Tbl, in.Fin.Val.ID) != nil
 	case "save_slice":
@@ -1099,6 +1158,11 @@ func main() {
 					state = append(state[:i], state[i+1:]...)
 				}
 			}
+			if r.Chance(7, 100) { // a stand-alone case on the table with unique e-mails (not part of the history)
+				add("unique-index", genUnique(r, int64(10*(s+2))))
+				n++
+				continue
+			}
 			edge := r.Chance(15, 100)
 			known := r.Chance(15, 100) // force a Session/WithContext after an Attrs/Assign
 			in := genStep(r, state, int64(10*(s+2)), edge, known)
@@ -1121,6 +1185,6 @@ func main() {
 			}
 		}
 	}
-	out.Extra["rule"] = "a case is ONE step on a table of 0..n rows over keys 1..4 (+ rowid-assigned keys): Save(v) | Omit(subset of name,age,email,updated_at in column or field spelling).Save(v) on stored, soft-deleted, missing and zero keys with zero-valued fields | Save(&slice of 2-4 values mixing stored keys, fresh keys and zero keys in any order; the slice handed back is compared element by element and is saved again by a later step; RETURNING dialect) | Create+OnConflict{DoNothing, DoUpdates(subset of name,age,email,updated_at,deleted_at), UpdateAll}(v), optionally conditional (OnConflict.Where = stored age < k on DoUpdates/UpdateAll, OnConflict.TargetWhere = age < k; colliding rows on both sides of the condition) | FirstOrInit | FirstOrCreate, preceded by a chain of Where(struct|map|raw 'age > ?') / Attrs / Assign (struct by value or by pointer, map in column or field spelling, key-value; 1-2 arguments) in any order with Session(&Session{}) / WithContext inserted at chain positions; steps are chained into histories of 6..12 steps on the evolving table with soft/hard deletions in between; v is fresh (key 0 or 1..4) or a previously stored row edited. Session/WithContext are inserted at EVERY chain position, also after Attrs/Assign (stream session-after-attrs forces that shape, the fixed finding clone-drops-attrs). Domain: at most one Attrs and one Assign per chain, key-value form alone, two-argument forms in column spelling, Attrs/Assign keys among name/age/email, type-correct values, one inline condition. distinct = distinct (finisher, rule+cols, collision kind, chain form, inline form, RowsAffected, writes, error, table size); non-trivial = the value's key collides with a stored row (Save/upsert) or the chain has a condition and a non-empty Attrs/Assign on a non-empty table (FirstOr*)."
+	out.Extra["rule"] = "a case is ONE step on a table of 0..n rows over keys 1..4 (+ rowid-assigned keys): Save(v) | Omit(subset of name,age,email,updated_at in column or field spelling).Save(v) on stored, soft-deleted, missing and zero keys with zero-valued fields | Save(&slice of 2-4 values mixing stored keys, fresh keys and zero keys in any order; the slice handed back is compared element by element and is saved again by a later step; RETURNING dialect) | Create+OnConflict{DoNothing, DoUpdates(subset of name,age,email,updated_at,deleted_at), UpdateAll}(v), optionally conditional (OnConflict.Where = stored age < k on DoUpdates/UpdateAll, OnConflict.TargetWhere = age < k; colliding rows on both sides of the condition) | the same rules, with and without explicit Columns=[id], on a stand-alone table with a second (partial) UNIQUE index on e-mails starting with 'u' and incoming rows whose e-mail is free, their own or held by another (live or soft-deleted) row | FirstOrInit | FirstOrCreate, preceded by a chain of Where(struct|map|raw 'age > ?') / Attrs / Assign (struct by value or by pointer, map in column or field spelling, key-value; 1-2 arguments) in any order with Session(&Session{}) / WithContext inserted at chain positions; steps are chained into histories of 6..12 steps on the evolving table with soft/hard deletions in between; v is fresh (key 0 or 1..4) or a previously stored row edited. Session/WithContext are inserted at EVERY chain position, also after Attrs/Assign (stream session-after-attrs forces that shape, the fixed finding clone-drops-attrs). Domain: at most one Attrs and one Assign per chain, key-value form alone, two-argument forms in column spelling, Attrs/Assign keys among name/age/email, type-correct values, one inline condition. distinct = distinct (finisher, rule+cols, collision kind, chain form, inline form, RowsAffected, writes, error, table size); non-trivial = the value's key collides with a stored row (Save/upsert) or the chain has a condition and a non-empty Attrs/Assign on a non-empty table (FirstOr*)."
 	lib.Must(out.Flush())
 }
